@@ -135,7 +135,9 @@ func (c schedCfg) dstTag(id string) string {
 // that day (end of daylight saving): the configuration then names two instants and the statement does not
 // say which one is meant, so the run is not judged further (the caller stops the run).
 func c18Violate(env *Env, fp, format string, a ...any) {
-	if strings.Contains(fp, "window-edge-in-repeated-dst-hour") {
+	// (Not so for the reset rule: that a session is not reset over and over while it stays inside one
+	// window does not depend on which of the two instants ends it.)
+	if strings.Contains(fp, "window-edge-in-repeated-dst-hour") && !strings.HasPrefix(fp, "C18/reset") {
 		env.Stat("not_judged_window_edge_in_repeated_dst_hour")
 		return
 	}
@@ -338,7 +340,11 @@ func runC18(env *Env, tier string) {
 		if want {
 			r := resetsSeen()
 			if (r > lastResets) != (id != prevID) {
-				c18Violate(env, "C18/reset"+sc.dstTag(id)+sc.dstTag(prevID), "at %s (window opened %s; previous in-window instant's window %q): store was reset %d times since, schedule %v", desc, id, prevID, r-lastResets, extra)
+				tags := sc.dstTag(id)
+				if t2 := sc.dstTag(prevID); t2 != tags {
+					tags += t2
+				}
+				c18Violate(env, "C18/reset"+tags, "at %s (window opened %s; previous in-window instant's window %q): store was reset %d times since, schedule %v", desc, id, prevID, r-lastResets, extra)
 				break
 			}
 			lastResets, prevID = r, id
